@@ -79,6 +79,12 @@ func init() {
 			for _, g := range []string{"a.b", ".", "trailing.", "x.y.z"} {
 				out = append(out, drv.Scenario{Kind: "dotted", Seed: seed, Params: mustJSON(c14Params{Groups: []string{g}, VBs: []int{3}}), TimeoutS: 60, Solo: true})
 			}
+			// the same through a complete client (the configuration passes through ApplyDefaults): a dotted group name must
+			// not produce a running session
+			for _, g := range []string{"orders.v2", "a.b.c", "x."} {
+				sp := &SessSpec{NumVB: 2, Nodes: 1, PNow: 1, Backend: "cb", GroupName: g, Backlog: map[int][][]ItemSpec{0: {{{K: "m", Key: []byte("k"), Val: []byte("{}")}}}}, Steps: []Step{{Op: "barrier"}, {Op: "commit"}}}
+				out = append(out, drv.Scenario{Kind: "dotted-full", Seed: seed, Params: mustJSON(c14Params{Spec: sp}), TimeoutS: 60, Solo: true})
+			}
 			for i := 0; i < nsess; i++ {
 				sp := c14ReservedSpec(rng, i)
 				out = append(out, drv.Scenario{Kind: "reserved", Seed: seed, Params: mustJSON(c14Params{Spec: sp}), TimeoutS: 90})
@@ -97,7 +103,7 @@ func init() {
 		},
 		Run: runC14,
 		OnDeath: func(sc drv.Scenario, out drv.ChildOutcome) drv.Result {
-			if sc.Kind == "dotted" && drv.IsLibraryPanic(out.Stderr) {
+			if (sc.Kind == "dotted" || sc.Kind == "dotted-full") && drv.IsLibraryPanic(out.Stderr) {
 				return drv.Result{Verdict: drv.Held, Nontrivial: true, TraceHash: drv.Hash("dotted", string(sc.Params)), Checks: 1, Events: map[string]int{"process_deaths": 1},
 					Sample: map[string]any{"kind": "dotted", "outcome": drv.PanicLine(out.Stderr)}}
 			}
@@ -107,7 +113,8 @@ func init() {
 }
 
 func c14ReservedSpec(rng *rand.Rand, i int) *SessSpec {
-	sp := &SessSpec{NumVB: 1 + rng.Intn(5), Nodes: 1, AckSeed: rng.Int63(), Backend: []string{"mem", "cb"}[rng.Intn(2)], Backlog: map[int][][]ItemSpec{}}
+	// the reserved keys are reserved in every set-up, also when this client keeps its own checkpoints elsewhere (file)
+	sp := &SessSpec{NumVB: 1 + rng.Intn(5), Nodes: 1, AckSeed: rng.Int63(), Backend: []string{"mem", "cb", "file"}[rng.Intn(3)], Backlog: map[int][][]ItemSpec{}}
 	sp.PNow, sp.PDefer = 0.6, 0.3
 	o := &HistOpts{NumVB: sp.NumVB, PReserved: 0.45, PSystem: 0.03, PSeqAdv: 0.05, MaxItems: 5}
 	ctr := 0
@@ -138,6 +145,20 @@ func runC14(sc drv.Scenario) drv.Result {
 	switch sc.Kind {
 	case "names", "dotted":
 		return c14Names(sc, &p)
+	case "dotted-full":
+		drv.NoteFlush("starting a client with dotted group %q", p.Spec.GroupName)
+		tr := RunSession(p.Spec)
+		if tr.StartErr != "" && len(tr.Segs) == 0 {
+			return drv.Result{Verdict: drv.Held, Nontrivial: true, Checks: 1, TraceHash: drv.Hash("dotted-full", p.Spec.GroupName), Events: map[string]int{}, Sample: map[string]any{"kind": "dotted-full", "outcome": "start refused: " + tr.StartErr}}
+		}
+		var wrote []string
+		for _, r := range tr.Log {
+			if r.K == "sim.docwrite" && strings.Contains(r.S, ":checkpoint:") {
+				wrote = append(wrote, r.S)
+			}
+		}
+		return drv.Result{Verdict: drv.Violated, Clause: "dotted", FindingKey: "C14/dotted-accepted", Nontrivial: true, TraceHash: drv.Hash("dotted-full", p.Spec.GroupName),
+			Detail: fmt.Sprintf("a client configured with group name %q (contains a dot) started and streamed; checkpoint keys written: %v", p.Spec.GroupName, wrote)}
 	case "reserved":
 		tr := RunSession(p.Spec)
 		var fs []Finding
